@@ -22,38 +22,56 @@ THEOREMS = [
     'C04.replica_injective', 'C04.newVects_det', 'C04.rotate_members', 'C04.rotate_inside',
     'C04.rotate_distinct', 'C04.rotate_refuses_singular',
     'C04.rotate_equal_representation', 'C04.rep_exists', 'C04.rep_unique', 'C04.reduce_rep',
+    # the count: sublattice index |det U| (Mathlib Smith normal form), coverage by the bounding supercell,
+    # per-atom image lists, total = natoms*|det U| (the code's expected-count test), at K = Q with Rat.floor
+    'C04.rotate_lattice_index', 'C04.rep_in_bounds', 'C04.keptPred_imageOf', 'C04.rotate_count',
+    'C04.rotate_total', 'C04.rotate_check_passes', 'C04.rotate_total_rat',
 ]
 PARTIAL = {
-    'rotate_count': 'proved for the infinite crystal: the images of any two original atoms inside the new half-open '
-                    'cell are in explicit bijection by new-lattice translations (rotate_equal_representation: every '
-                    'original is represented equally often, one image per coset of Z^3/Z^3.U), members are originals '
-                    'plus lattice vectors with payload copied, pairwise distinct modulo the new lattice, volume scales '
-                    'by det U. Not proved: that this common number equals |det U| (sublattice index) and that the '
-                    'finite bounding supercell (corners -/+ 1) contains every representative; both are the code\'s '
-                    'own expected-count test and are checked by the correspondence and the oracle',
-    'normalize_after_rotate': 'the final normalize step is property C05; here the result is compared modulo the '
-                              'returned rotation',
+    'normalize_after_rotate': 'the final normalize step (rebuild the box LAMMPS-compatible, flip a left-handed cell, '
+                              'wrap, returned transform) is property C05; here it is outside the Lean model: the '
+                              'correspondence compares relative coordinates in the new cell (s_c -> 1-s_c for a '
+                              'left-handed U, C05 flip_same_points) and the oracle checks on the real result that the '
+                              'returned transform is a proper rotation taking the requested lattice vectors U.vects onto '
+                              'the result cell and every atom onto an original atom',
+    'cell_conversions': 'conventional<->primitive conversions are rotate() by the centering tables (mutually inverse by '
+                        'C16 centering_inverse) followed, for c2p, by cutting 1/8 (1/27) of the cell out with a float '
+                        'smallshift; that cut is not modelled in Lean; the oracle checks on the real code, for all 8 '
+                        'settings, that the primitive cell is the same crystal and that p2c(c2p(cell)) returns the '
+                        'original cell vectors, identity composite transform and the original atoms in place',
 }
 RULE = ('random cells of every crystal family + triclinic (dyadic-grid vectors, non-zero origins), 1-4 atoms with '
-        'relative coordinates on a 1/8 grid incl. faces, 1-3 types, scalar+vector extra properties; multiplier '
-        'tuples positive/negative/two-sided; integer 3x3 U with entries in [-2,2] (hexagonal 3x4 too), det != 0; '
-        'distinct = distinct canonical request line; non-trivial = more than one replica / U != identity')
+        'relative coordinates on a 1/8 grid incl. faces, 1-3 types, scalar + vector + 3x3 tensor + unique integer '
+        'per-atom properties; multiplier tuples positive/negative/two-sided; integer 3x3 U with entries in [-2,2] '
+        '(hexagonal 3x4 too), det != 0 of either sign; a batch with one atom moved outside the box (refusals must '
+        'coincide); distinct = distinct canonical request line; non-trivial = more than one replica / U != identity')
 ASSUMPTIONS = ['numpy.linalg.inv and float arithmetic of the implementation are within rtol 1e-9 of the exact value on '
                'the generated (well-conditioned, dyadic) cells',
                'the float tolerance ladder of rotate (isclose to 0/1) is the identity in exact arithmetic',
+               'rotate_count / rotate_total / rotate_check_passes assume every atom inside the box (0 <= s < 1, what '
+               'System.wrap establishes) and a non-degenerate box; for atoms outside the box both the code and the '
+               'model (rotateChecked) may refuse with the expected-count test ("Filtering failed") - compared in the '
+               'correspondence',
                'System.normalize (applied by rotate last) is covered by property C05; results are compared modulo '
                'the returned transform']
-TRUSTED = ['numpy in the correspondence run']
+TRUSTED = ['numpy in the correspondence run',
+           'Mathlib (Submodule.natAbs_det_equiv: Smith normal form over Z) - kernel-checked, standard axioms only']
 MANIFEST = {
-    'text': 'Lean model of supersize (exact replica ordering) and of rotate up to normalize; theorems for every field: '
-            'count, k-th atom = original + integer lattice shift with payload copied, index bijection, volume x M, '
-            'distinct replicas never coincide, rotated cell volume = |det U| x volume, every kept atom is an original '
-            'plus a lattice vector and lies in the half-open cell, no two kept atoms differ by a new-lattice vector. Tied to the code by an exact/toleranced '
-            'correspondence run on supersize and rotate and an exact lattice-arithmetic oracle on the real results '
-            '(including cell conversions).',
+    'text': 'Lean model of supersize (exact replica ordering) and of rotate up to normalize (bounding supercell from the '
+            '8 corners -/+ 1, whole-lattice translation to the Cartesian origin, half-open filter, the expected-count '
+            'test). Theorems for every linearly ordered (floor) field: count, k-th atom = original + integer lattice '
+            'shift with payload copied, index bijection, volume x M, distinct replicas never coincide; rotated cell '
+            'volume = det U x volume; every kept atom is an original plus a lattice vector inside the half-open cell; no '
+            'two kept atoms differ by a new-lattice vector; the half-open cell of Z^3.U holds exactly |det U| points of '
+            'every coset (sublattice index via Mathlib Smith normal form) and the bounding supercell contains all of '
+            'them, hence each original atom inside the box has exactly |det U| distinct images kept, none missed, the '
+            'kept list is a permutation of the per-atom image lists, total = natoms x |det U| and the code\'s '
+            'expected-count test never fails. Tied to the code by an exact/toleranced correspondence run on supersize '
+            'and rotate (incl. refusals) and an exact lattice-arithmetic oracle on the real results (requested vectors, '
+            'proper transform, payload incl. tensors, cell conversions undoing one another).',
     'note': 'Trusted: Lean kernel + standard axioms; the correspondence harness; float rounding bounded by rtol 1e-9. '
-            'Partial: the count |det U| per original (sublattice index) is checked on the implementation, not proved; '
-            'normalize is C05.',
+            'Outside the Lean model: normalize (C05) and the primitive-cell cut of conventional_to_primitive, both '
+            'checked on the implementation by the oracle.',
     'technique': 'Lean 4 theorems over a hand-written model + differential correspondence + exact lattice oracle',
 }
 
@@ -119,23 +137,37 @@ def gen_system(rng, am, fam_box=None):
     atype = [m[t] for t in atype]
     q = [cm.dyadic(rng, -2, 2, 2) for _ in range(n)]
     v = [[cm.dyadic(rng, -2, 2, 2) for _ in range(3)] for _ in range(n)]
-    atoms = am.Atoms(atype=atype, pos=np.array(spos, dtype=float), q=np.array(q), v=np.array(v))
+    # a rank-2 per-atom property (all nine entries different, not symmetric) and an integer one that is unique per
+    # atom: a replica that carries another atom's (or a transposed / re-tiled) value cannot go unnoticed
+    stress = [[[cm.dyadic(rng, -4, 4, 3) for _ in range(3)] for _ in range(3)] for _ in range(n)]
+    tag = rng.sample(range(1, 50), n)
+    atoms = am.Atoms(atype=atype, pos=np.array(spos, dtype=float), q=np.array(q), v=np.array(v),
+                     stress=np.array(stress), tag=np.array(tag, dtype=int))
     sysm = am.System(atoms=atoms, box=box, scale=True)
     return sysm, fam, spos
 
 
+NEXTRA = 14
+
+
+def payload(sysm, k):
+    """every per-atom value except type and position, as exact floats: q, v (3), stress (9, row-major), tag."""
+    return ([float(sysm.atoms.q[k])] + [float(x) for x in sysm.atoms.v[k]]
+            + [float(x) for x in sysm.atoms.stress[k].ravel()] + [float(sysm.atoms.tag[k])])
+
+
 def sys_line(sysm):
-    """exact wire form: box (12) then atoms with 4 extras each."""
+    """exact wire form: box (12) then atoms with NEXTRA extras each."""
     np = _np()
     pos = sysm.atoms.pos
     parts = [cm.frs(sysm.box.vects), cm.frs(sysm.box.origin)]
     atoms = []
     for i in range(sysm.natoms):
-        atoms.append(f"{int(sysm.atoms.atype[i])} {cm.frs(pos[i])} {cm.fr(sysm.atoms.q[i])} {cm.frs(sysm.atoms.v[i])}")
+        atoms.append(f"{int(sysm.atoms.atype[i])} {cm.frs(pos[i])} {cm.frs(payload(sysm, i))}")
     return ' '.join(parts), ' '.join(atoms)
 
 
-def parse_result(out, e=4):
+def parse_result(out, e=NEXTRA):
     toks = out.split()
     box = [Fraction(t) for t in toks[:12]]
     n = int(toks[12])
@@ -198,7 +230,7 @@ def correspond(ctx):
         new = sysm.supersize(*sizes)
         bl, al = sys_line(sysm)
         ns = [norm_size(s) for s in sizes]
-        line = f"supersize 4 {sysm.natoms} {bl} " + ' '.join(f'{lo} {hi}' for lo, hi in ns) + ' ' + al
+        line = f"supersize {NEXTRA} {sysm.natoms} {bl} " + ' '.join(f'{lo} {hi}' for lo, hi in ns) + ' ' + al
         out = ctx.driver.ask(line)
         mult = math.prod(h - l for l, h in ns)
         ctx.stats.case('supersize', line, nontrivial=mult > 1,
@@ -211,7 +243,7 @@ def correspond(ctx):
         ok = cm.allclose(impl_box, box, rtol=1e-12, atol=1e-12) and len(atoms) == new.natoms
         if ok:
             for k, (t, p, ex) in enumerate(atoms):
-                impl_ex = [new.atoms.q[k]] + list(new.atoms.v[k])
+                impl_ex = payload(new, k)
                 if t != int(new.atoms.atype[k]) or not cm.allclose(new.atoms.pos[k], p, rtol=1e-9, atol=1e-9) \
                         or not cm.allclose(impl_ex, ex, rtol=0, atol=0):
                     ok = False
@@ -237,40 +269,55 @@ def correspond(ctx):
     for it in range(ctx.n(60, 800)):
         sysm, fam, _ = gen_system(rng, am)
         U, d = gen_U(rng, maxdet=ctx.n(5, 8))
-        bl, al = sys_line(sysm)
-        line = f"rotate 4 {sysm.natoms} {bl} " + ' '.join(str(x) for r in U for x in r) + ' ' + al
-        out = ctx.driver.ask(line)
-        ctx.stats.case('rotate', line, nontrivial=U != [[1, 0, 0], [0, 1, 0], [0, 0, 1]],
-                       sample={'op': 'rotate', 'family': fam, 'U': U, 'det': d, 'natoms': sysm.natoms})
-        try:
-            new, T = sysm.rotate(U, return_transform=True)
-        except ValueError as e:
-            ctx.disagree('rotate:impl-refuses', f'rotate refused U={U} (det {d}) family {fam}: {e}',
-                         {'op': 'rotate', 'line': line, 'U': U})
-            continue
-        if out.startswith('err:'):
-            ctx.disagree('rotate:model-refuses', f'model refused U={U}: {out}', {'line': line})
-            continue
-        mbox, matoms = parse_result(out)
-        # model: relative coordinates in the model's new box
-        V = [[mbox[3 * i + j] for j in range(3)] for i in range(3)]
-        o = mbox[9:12]
-        Vi = inv3(V)
-        mset = []
-        for t, p, ex in matoms:
-            s = vecmat([p[j] - o[j] for j in range(3)], Vi)
-            if d < 0:
-                # left-handed new cell: normalize reverses the third vector (c -> -c, origin += c): s_c -> 1 - s_c
-                s = [s[0], s[1], 1 - s[2]]
-            mset.append((t, tuple(ex), tuple(s)))
-        spos = new.atoms_prop('pos', scale=True)
-        iset = [(int(new.atoms.atype[k]), tuple([Fraction(float(new.atoms.q[k]))] + [Fraction(float(x)) for x in new.atoms.v[k]]),
-                 tuple(spos[k])) for k in range(new.natoms)]
-        if not match_multisets(iset, mset, tol=1e-7):
-            ctx.disagree('rotate', f'rotate U={U} (family {fam}): kept atoms differ from the model '
-                         f'({new.natoms} vs {len(matoms)})',
-                         {'op': 'rotate', 'line': line, 'U': U, 'impl_natoms': int(new.natoms),
-                          'model_natoms': len(matoms)})
+        _corr_rotate(ctx, am, sysm, fam, U, d, 'rotate')
+    # --- rotate with an atom outside the box: the bounding supercell may miss images, then the code's own
+    #     expected-count test refuses ("Filtering failed"); the model (rotateChecked) must refuse exactly then ---
+    for it in range(ctx.n(30, 400)):
+        sysm, fam, _ = gen_system(rng, am)
+        sp = sysm.atoms_prop('pos', scale=True)
+        sp[rng.randrange(sysm.natoms)] += np.array([rng.randint(-3, 3) for _ in range(3)], dtype=float)
+        sysm.atoms_prop('pos', value=sp, scale=True)
+        U, d = gen_U(rng, maxdet=5)
+        _corr_rotate(ctx, am, sysm, fam, U, d, 'rotate-outside')
+
+
+def _corr_rotate(ctx, am, sysm, fam, U, d, kind):
+    bl, al = sys_line(sysm)
+    line = f"rotate {NEXTRA} {sysm.natoms} {bl} " + ' '.join(str(x) for r in U for x in r) + ' ' + al
+    out = ctx.driver.ask(line)
+    ctx.stats.case(kind, line, nontrivial=U != [[1, 0, 0], [0, 1, 0], [0, 0, 1]],
+                   sample={'op': kind, 'family': fam, 'U': U, 'det': d, 'natoms': sysm.natoms})
+    try:
+        new, T = sysm.rotate(U, return_transform=True)
+    except ValueError as e:
+        if not out.startswith('err:'):
+            ctx.disagree(kind + ':impl-refuses', f'rotate refused U={U} (det {d}) family {fam}: {e}; the model keeps '
+                         f'{parse_result(out)[1].__len__()} atoms', {'op': 'rotate', 'line': line, 'U': U})
+        return
+    if out.startswith('err:'):
+        ctx.disagree(kind + ':model-refuses', f'model refused U={U}: {out}; rotate returned {new.natoms} atoms',
+                     {'line': line})
+        return
+    mbox, matoms = parse_result(out)
+    # model: relative coordinates in the model's new box
+    V = [[mbox[3 * i + j] for j in range(3)] for i in range(3)]
+    o = mbox[9:12]
+    Vi = inv3(V)
+    mset = []
+    for t, p, ex in matoms:
+        s = vecmat([p[j] - o[j] for j in range(3)], Vi)
+        if d < 0:
+            # left-handed new cell: normalize reverses the third vector (c -> -c, origin += c): s_c -> 1 - s_c
+            s = [s[0], s[1], 1 - s[2]]
+        mset.append((t, tuple(ex), tuple(s)))
+    spos = new.atoms_prop('pos', scale=True)
+    iset = [(int(new.atoms.atype[k]), tuple(Fraction(x) for x in payload(new, k)), tuple(spos[k]))
+            for k in range(new.natoms)]
+    if not match_multisets(iset, mset, tol=1e-7):
+        ctx.disagree(kind, f'rotate U={U} (family {fam}): kept atoms differ from the model '
+                     f'({new.natoms} vs {len(matoms)})',
+                     {'op': 'rotate', 'line': line, 'U': U, 'impl_natoms': int(new.natoms),
+                      'model_natoms': len(matoms)})
 
 
 def inv3(V):
@@ -313,9 +360,19 @@ def match_multisets(iset, mset, tol):
 # ----------------------------------------------------------------------------------------------
 # search: the clauses of the property on the real code, exact lattice arithmetic
 # ----------------------------------------------------------------------------------------------
+def _all_payload(sysm, k):
+    """every per-atom value other than type and position (whatever properties the system has), flattened."""
+    out = []
+    for key in sorted(sysm.atoms_prop()):
+        if key in ('atype', 'pos'):
+            continue
+        out.extend(float(x) for x in _np().asarray(sysm.atoms.view[key][k]).ravel())
+    return tuple(out)
+
+
 def _orig_records(sysm, spos):
-    return [(int(sysm.atoms.atype[i]), float(sysm.atoms.q[i]), tuple(float(x) for x in sysm.atoms.v[i]),
-             tuple(Fraction(x) for x in spos[i])) for i in range(sysm.natoms)]
+    return [(int(sysm.atoms.atype[i]), _all_payload(sysm, i), tuple(Fraction(x) for x in spos[i]))
+            for i in range(sysm.natoms)]
 
 
 def _check_same_crystal(ctx, key, what, sysm, spos, new, T, count, replay):
@@ -332,15 +389,19 @@ def _check_same_crystal(ctx, key, what, sysm, spos, new, T, count, replay):
     if abs(vol1 - count * vol0) > 1e-8 * vol1:
         ctx.violate(key + ':volume', f'{what}: volume {vol1}, expected {count} x {vol0}', replay)
         return False
+    if sorted(new.atoms_prop()) != sorted(sysm.atoms_prop()):
+        ctx.violate(key + ':properties', f'{what}: per-atom properties {sorted(new.atoms_prop())}, original has '
+                    f'{sorted(sysm.atoms_prop())}', replay)
+        return False
     for k in range(new.natoms):
         # new frame -> old frame (absolute Cartesian): pos_old = T^T pos_new (a pure rotation about the
         # Cartesian origin; supersize has T = 1), then relative to the original cell
         y = T.T @ new.atoms.pos[k]
         s = (y - sysm.box.origin) @ Vinv
         best = None
-        for i, (t, q, v, sp) in enumerate(recs):
-            if t != int(new.atoms.atype[k]) or q != float(new.atoms.q[k]) \
-                    or v != tuple(float(x) for x in new.atoms.v[k]):
+        pl = _all_payload(new, k)
+        for i, (t, opl, sp) in enumerate(recs):
+            if t != int(new.atoms.atype[k]) or opl != pl:
                 continue
             if all(circ(s[j], sp[j]) < 1e-6 for j in range(3)):
                 best = i
@@ -363,6 +424,21 @@ def _check_same_crystal(ctx, key, what, sysm, spos, new, T, count, replay):
     return True
 
 
+def _check_new_vectors(ctx, key, what, sysm, U, new, T, replay):
+    """the result is expressed along the requested lattice vectors: its cell vectors are the rows of U.vects, turned
+    by the returned rotation (third one reversed when the requested set is left-handed; C05: normalize flips c)."""
+    np = _np()
+    want = (np.array(U, dtype=float) @ sysm.box.vects) @ T.T
+    if np.linalg.det(np.array(U, dtype=float)) < 0:
+        want[2] = -want[2]
+    scale = np.abs(want).max()
+    if not np.allclose(new.box.vects, want, rtol=0, atol=1e-8 * scale):
+        ctx.violate(key, f'{what}: cell vectors {new.box.vects.tolist()} are not the requested lattice vectors turned '
+                    f'by the returned transform {want.tolist()}', replay)
+        return False
+    return True
+
+
 def search(ctx, broken):
     np = _np()
     import atomman as am
@@ -381,6 +457,13 @@ def search(ctx, broken):
         new = sysm.supersize(*sizes)
         ctx.stats.case('oracle:supersize', (fam, tuple(ns), tuple(spos)))
         _check_same_crystal(ctx, 'supersize', f'supersize{tuple(sizes)} ({fam})', sysm, spos, new, I3, M, replay)
+        V0, o0 = before[1], before[2]
+        wantv = np.array([V0[i] * (ns[i][1] - ns[i][0]) for i in range(3)])
+        wanto = o0 + sum(V0[i] * ns[i][0] for i in range(3))
+        if not (np.allclose(new.box.vects, wantv, rtol=0, atol=1e-9) and np.allclose(new.box.origin, wanto, rtol=0, atol=1e-9)):
+            ctx.violate('supersize:box', f'supersize{tuple(sizes)} ({fam}): box {new.box.vects.tolist()} at '
+                        f'{new.box.origin.tolist()}, expected the multiplied vectors {wantv.tolist()} at {wanto.tolist()}',
+                        replay)
         if not (np.array_equal(before[0], sysm.atoms.pos) and np.array_equal(before[1], sysm.box.vects)
                 and np.array_equal(before[2], sysm.box.origin)):
             ctx.violate('supersize:input-mutated', 'supersize changed its input system', replay)
@@ -408,6 +491,7 @@ def search(ctx, broken):
             continue
         if not _check_same_crystal(ctx, 'rotate', f'rotate U={U} det={d} ({fam})', sysm, spos, new, T, abs(d), replay):
             continue
+        _check_new_vectors(ctx, 'rotate:vectors', f'rotate U={U} det={d} ({fam})', sysm, U, new, T, replay)
         if not new.box.is_lammps_norm():
             ctx.violate('rotate:lammps-normal', f'rotate U={U}: result box is not LAMMPS-compatible', replay)
         sp = new.atoms_prop('pos', scale=True)
@@ -432,7 +516,8 @@ def search(ctx, broken):
         except Exception as e:  # noqa
             ctx.violate('rotate:hex-raises', f'rotate raised {type(e).__name__}: {e} for 3x4 indices {U4}', replay)
             continue
-        _check_same_crystal(ctx, 'rotate-hex', f'rotate 3x4 {U4}', sysm, spos, new, T, abs(27 * d), replay)
+        if _check_same_crystal(ctx, 'rotate-hex', f'rotate 3x4 {U4}', sysm, spos, new, T, abs(27 * d), replay):
+            _check_new_vectors(ctx, 'rotate-hex:vectors', f'rotate 3x4 {U4} (= 3x3 {U3})', sysm, U3, new, T, replay)
     # refusals of rotate
     sysm, fam, spos = gen_system(rng, am)
     for bad, why in [([[1, 0, 0], [2, 0, 0], [0, 0, 1]], 'parallel'), ([[1, 1, 0], [1, -1, 0], [2, 0, 0]], 'planar'),
@@ -498,10 +583,17 @@ def _search_conversions(ctx, rng, am):
             if ok1:
                 Ttot = T2 @ T1
                 _check_same_crystal(ctx, 'conversion:roundtrip', f'c2p then p2c ({setting})', conv, sp_exact, conv2, Ttot, 1, replay)
-                l0 = sorted([conv.box.a, conv.box.b, conv.box.c])
-                l2 = sorted([conv2.box.a, conv2.box.b, conv2.box.c])
-                if not np.allclose(l0, l2, rtol=1e-9):
-                    ctx.violate('conversion:cell', f'c2p then p2c ({setting}) changed the cell lengths {l0} -> {l2}', replay)
+                # "undo one another": the composite is the identity re-expression - same cell vectors, composite
+                # transform = identity, and the atoms are the original ones modulo the lattice *without* any rotation
+                if not np.allclose(conv2.box.vects, conv.box.vects, rtol=0, atol=1e-8 * conv.box.a):
+                    ctx.violate('conversion:cell', f'c2p then p2c ({setting}) changed the cell {conv.box.vects.tolist()} '
+                                f'-> {conv2.box.vects.tolist()}', replay)
+                elif not np.allclose(Ttot, np.eye(3), atol=1e-8):
+                    ctx.violate('conversion:transform', f'c2p then p2c ({setting}): composite transform {Ttot.tolist()} '
+                                f'is not the identity', replay)
+                else:
+                    _check_same_crystal(ctx, 'conversion:undo', f'c2p then p2c ({setting}) compared in place', conv,
+                                        sp_exact, conv2, np.eye(3), 1, replay)
 
 
 def _check_same_crystal_partial(ctx, key, what, sysm, spos, new, T, replay):
@@ -515,7 +607,7 @@ def _check_same_crystal_partial(ctx, key, what, sysm, spos, new, T, replay):
         # the primitive cell may have been shifted so that an atom sits at the origin: allow a common offset
         if k == 0:
             off = None
-            for (t, q, v, sp) in recs:
+            for (t, opl, sp) in recs:
                 if t == int(new.atoms.atype[k]):
                     off = [float(sp[j]) - s[j] for j in range(3)]
                     break
@@ -523,8 +615,9 @@ def _check_same_crystal_partial(ctx, key, what, sysm, spos, new, T, replay):
                 ctx.violate(key, f'{what}: atom 0 has a type absent from the original', replay)
                 return False
         s2 = [s[j] + off[j] for j in range(3)]
-        if not any(t == int(new.atoms.atype[k]) and all(circ(s2[j], sp[j]) < 1e-6 for j in range(3))
-                   for (t, q, v, sp) in recs):
+        pl = _all_payload(new, k)
+        if not any(t == int(new.atoms.atype[k]) and opl == pl and all(circ(s2[j], sp[j]) < 1e-6 for j in range(3))
+                   for (t, opl, sp) in recs):
             ctx.violate(key, f'{what}: atom {k} is not an original atom modulo the lattice (rel {s2})', replay)
             return False
     sp = new.atoms_prop('pos', scale=True)
